@@ -12,7 +12,9 @@ import NeumannModel.Vault.Model
     grantttl <now> <req> <ent> <sec> <lvl> <ttl>   revoke <now> <req> <ent> <sec>
     delegate <now> <parent> <child> <s,s,..> <lvl> <ttl|->     undelegate <now> <parent> <child>
     addmember <a> <b>   delmember <a> <b>   membersec <a> <sec>   delmembersec <a> <sec>
-    rawaccess <ent> <sec> <lvlcode 0..4> <cap 0..3|9> <sig 0|1>    perm <now> <req> <sec>
+    rawedge <ent> e|s <dst> <edge-type> <cap 0..3|9> <sigOk 0|1> d|u   (raw graph edge of ANY type, classified by the
+            model's `kindOfType`; `u` = undirected: listed among the outgoing edges of both ends)
+    perm <now> <req> <sec>
 -/
 open Neumann Neumann.Proto Neumann.Vault
 
@@ -79,13 +81,16 @@ def vaultStep (s : State) (line : String) : State × String :=
       | some [a, sec] => fin (s.addMember (entNode a) (secNode sec)) | _ => bad
   | "delmembersec" :: rest => match nats rest with
       | some [a, sec] => fin (s.delMember (entNode a) (secNode sec)) | _ => bad
-  | "rawaccess" :: rest => match nats rest with
-      | some [ent, sec, lc, cap, sig] =>
-        let lvl : Option Level := if lc = 4 then some .admin else Level.ofNat? lc
-        let e : Edge := { id := s.nextId, src := entNode ent, dst := secNode sec,
-                          kind := .access lvl (Level.ofNat? cap) (sig = 1) }
-        ({ s with graph := s.graph ++ [e], nextId := s.nextId + 1 }, "ok")
-      | _ => bad
+  | ["rawedge", ent, dk, dst, ty, cap, sig, dir] =>
+      match ent.toNat?, dst.toNat?, cap.toNat?, sig.toNat? with
+      | some ent, some dst, some cap, some sig =>
+        if (dk ≠ "e" ∧ dk ≠ "s") ∨ (dir ≠ "d" ∧ dir ≠ "u") then bad else
+        let d := if dk = "s" then secNode dst else entNode dst
+        let k := kindOfType ty.toList (Level.ofNat? cap) (sig = 1)
+        let e1 : Edge := { id := s.nextId, src := entNode ent, dst := d, kind := k }
+        let e2 : Edge := { id := s.nextId + 1, src := d, dst := entNode ent, kind := k }
+        ({ s with graph := s.graph ++ (if dir = "u" then [e1, e2] else [e1]), nextId := s.nextId + 2 }, "ok")
+      | _, _, _, _ => bad
   | "perm" :: rest => match nats rest with
       | some [now, req, sec] =>
         -- `Vault::get_permission`: a non-root caller expires grants first (state effect kept)
